@@ -14,6 +14,7 @@ from common import (EVIDENCE, REPLAYS, TRUSTED_BASE, VERIF, Infra, check_props, 
 WH = {
     # pid: (views compared with the model, compare ret, compare events, op filter, description)
     "C01": (["content"], True, False, None),
+    "C03": (["content"], True, False, lambda op: op.split()[0] in ("qry", "eqry", "qwr", "wrt")),
     "C02": (["content", "alloc"], True, False, None),
     "C04": ([], False, True, None),
     "C06": (["content", "alloc", "res"], True, False, None),
